@@ -14,6 +14,7 @@ import (
 	"fmt"
 	"hash/adler32"
 	"io"
+	"runtime/debug"
 	"strconv"
 	"strings"
 	"time"
@@ -34,6 +35,20 @@ type MsgSpec struct {
 	Kind  byte     // 's' string body, 'w' body writer failing after K bytes, 'a' body + attachment whose reader fails after K bytes, 'A' body + attachment (ok)
 	K     int
 	Body  []byte
+	// ErrText is the Error() text of the failing producer (kinds 'w' and 'a'); HasErrText tells whether it was
+	// given in the case line (otherwise DefaultErrText).
+	ErrText    string
+	HasErrText bool
+}
+
+// DefaultErrText is the producer error text of cases that do not specify one.
+const DefaultErrText = "producer failed"
+
+func (s MsgSpec) errText() string {
+	if s.HasErrText {
+		return s.ErrText
+	}
+	return DefaultErrText
 }
 
 // Case is a parsed case line.
@@ -59,12 +74,16 @@ func (s MsgSpec) String() string {
 		}
 		rc = strings.Join(l, ",")
 	}
-	return fmt.Sprintf("%s:%s:%c:%c:%d:%s", from, rc, s.Enc, s.Kind, s.K, hx.Hex(s.Body))
+	base := fmt.Sprintf("%s:%s:%c:%c:%d:%s", from, rc, s.Enc, s.Kind, s.K, hx.Hex(s.Body))
+	if s.HasErrText {
+		base += ":" + hx.Hex([]byte(s.ErrText))
+	}
+	return base
 }
 
 func parseMsg(t string) (MsgSpec, error) {
 	f := strings.Split(t, ":")
-	if len(f) != 6 {
+	if len(f) != 6 && len(f) != 7 {
 		return MsgSpec{}, fmt.Errorf("bad message spec %q", t)
 	}
 	var s MsgSpec
@@ -82,6 +101,9 @@ func parseMsg(t string) (MsgSpec, error) {
 	s.Enc, s.Kind = f[2][0], f[3][0]
 	s.K, _ = strconv.Atoi(f[4])
 	s.Body = hx.UnHex(f[5])
+	if len(f) == 7 {
+		s.ErrText, s.HasErrText = string(hx.UnHex(f[6])), true
+	}
 	return s, nil
 }
 
@@ -170,13 +192,12 @@ type failRS struct {
 	data []byte
 	k    int
 	pos  int
+	err  error
 }
-
-var errProducer = errors.New("producer failed")
 
 func (f *failRS) Read(p []byte) (int, error) {
 	if f.pos >= f.k {
-		return 0, errProducer
+		return 0, f.err
 	}
 	n := copy(p, f.data[f.pos:f.k])
 	f.pos += n
@@ -218,6 +239,7 @@ func Build(i int, s MsgSpec) *mail.Msg {
 	m.SetDateWithValue(time.Unix(1700000000+int64(i), 0).UTC())
 	m.SetMessageIDWithValue(fmt.Sprintf("m%d.case@verif.test", i))
 	body := s.Body
+	errProducer := errors.New(s.errText())
 	switch s.Kind {
 	case 'w':
 		k := s.K
@@ -239,7 +261,7 @@ func Build(i int, s MsgSpec) *mail.Msg {
 			}
 		}
 		if s.Kind == 'a' {
-			m.AttachReadSeeker("file.bin", &failRS{data: att, k: k})
+			m.AttachReadSeeker("file.bin", &failRS{data: att, k: k, err: errProducer})
 		} else {
 			m.AttachReadSeeker("file.bin", bytes.NewReader(att))
 		}
@@ -250,10 +272,10 @@ func Build(i int, s MsgSpec) *mail.Msg {
 }
 
 // Render is the independent rendering of a message specification (fresh Msg, plain buffer).
-func Render(i int, s MsgSpec) (content []byte, failed bool) {
+func Render(i int, s MsgSpec) (content []byte, err error) {
 	var buf bytes.Buffer
-	_, err := Build(i, s).WriteTo(&buf)
-	return buf.Bytes(), err != nil
+	_, err = Build(i, s).WriteTo(&buf)
+	return buf.Bytes(), err
 }
 
 // DotCanon is the form in which content written to an SMTP DATA dot-writer arrives at the server after
@@ -312,6 +334,9 @@ type MsgResult struct {
 type Result struct {
 	Contents   [][]byte // independent render (full content, or the prefix written before the producer failed)
 	Failed     []bool
+	RenderErr  []error // the error of the independent render (nil = none)
+	Panic      string  // Send panicked: the recovered value
+	PanicWhere string  // innermost go-mail function on the panicking stack
 	Err        error
 	RetKind    string // nil | dial | conncheck | joined | close | other
 	Joined     int
@@ -336,9 +361,10 @@ func hasCap(caps []string, c string) bool {
 func RunCase(c *Case) *Result {
 	res := &Result{}
 	for i, s := range c.Msgs {
-		content, failed := Render(i, s)
+		content, rerr := Render(i, s)
 		res.Contents = append(res.Contents, content)
-		res.Failed = append(res.Failed, failed)
+		res.Failed = append(res.Failed, rerr != nil)
+		res.RenderErr = append(res.RenderErr, rerr)
 	}
 	srv := smtpx.NewServer(c.Caps, c.Script)
 	d := &smtpx.Dialer{Srv: srv}
@@ -367,7 +393,25 @@ func RunCase(c *Case) *Result {
 	for i, s := range c.Msgs {
 		msgs[i] = Build(i, s)
 	}
-	err = cl.DialAndSendWithContext(context.Background(), msgs...)
+	func() {
+		defer func() {
+			if p := recover(); p != nil {
+				res.Panic = fmt.Sprint(p)
+				res.PanicWhere = "unknown"
+				st := string(debug.Stack())
+				best := -1
+				for _, fn := range []string{"isTempError", "errorCode", "enhancedStatusCode", "sendSingleMsg", "WriteTo"} {
+					if i := strings.Index(st, "go-mail."+fn+"("); i >= 0 && (best < 0 || i < best) {
+						best, res.PanicWhere = i, fn
+					} else if i := strings.Index(st, ")."+fn+"("); i >= 0 && (best < 0 || i < best) {
+						best, res.PanicWhere = i, fn
+					}
+				}
+				err = fmt.Errorf("panic: %v", p)
+			}
+		}()
+		err = cl.DialAndSendWithContext(context.Background(), msgs...)
+	}()
 	res.Err = err
 	if d.Client != nil {
 		res.ClientShut, _ = d.Client.Closed()
@@ -379,6 +423,8 @@ func RunCase(c *Case) *Result {
 	res.Trace, res.Commits = srv.Snapshot()
 	// classify the returned error
 	switch {
+	case res.Panic != "":
+		res.RetKind = "panic"
 	case err == nil:
 		res.RetKind = "nil"
 	case strings.HasPrefix(err.Error(), "dial failed"):
@@ -423,7 +469,8 @@ func RunCase(c *Case) *Result {
 	return res
 }
 
-// Derived renders the derived field of the case line: per message "<content hex>/<0|1 failed>".
+// Derived renders the derived field of the case line: per message "<content hex>/0" or
+// "<content hex>/1/<error text hex>/<unwrapped error text hex or !>".
 func (r *Result) Derived() string {
 	if len(r.Contents) == 0 {
 		return "-"
@@ -432,7 +479,12 @@ func (r *Result) Derived() string {
 	for i := range r.Contents {
 		f := "0"
 		if r.Failed[i] {
-			f = "1"
+			// the error as the classifiers see it: its text and the text of errors.Unwrap(err) ("!" = no wrapped error)
+			inner := "!"
+			if u := errors.Unwrap(r.RenderErr[i]); u != nil {
+				inner = hx.Hex([]byte(u.Error()))
+			}
+			f = "1/" + hx.Hex([]byte(r.RenderErr[i].Error())) + "/" + inner
 		}
 		l[i] = hx.Hex(r.Contents[i]) + "/" + f
 	}
@@ -500,7 +552,7 @@ func (r *Result) ObsC03() string {
 		dl.WriteString(boolc(m.Delivered))
 		el.WriteString(boolc(m.HasErr))
 	}
-	return fmt.Sprintf("dial=%s C=%s D=%s E=%s", boolc(r.DialOK), cs, tok(dl.String()), tok(el.String()))
+	return fmt.Sprintf("dial=%s C=%s D=%s E=%s P=%s", boolc(r.DialOK), cs, tok(dl.String()), tok(el.String()), boolc(r.Panic != ""))
 }
 
 // ObsC20: SendError fields per message, kind of the returned error and number of joined errors.
